@@ -978,4 +978,425 @@ theorem findAttrpathLeaf_some (ts : Node) (segs : List Text) (leaf : Node)
 
 @[simp] theorem setSid_set (c : Nat) (vs o : List Node) (m r : Bool) : (Node.set c vs o m r).setSid? = some c := rfl
 
+/-! ### pruning emptied attribute sets along a path (spec side) -/
+
+/-- drop the sets along `ks` that are empty, innermost first, stopping at the first non-empty one -/
+def pruneK : Kids → List Text → Kids
+  | kids, [] => kids
+  | kids, k :: ks =>
+    match Kids.lookup k kids with
+    | some (.node sub) =>
+      let sub' := pruneK sub ks
+      if sub'.isEmpty then Kids.erase k kids else Kids.upsert k (.node sub') kids
+    | _ => kids
+
+theorem Kids.upsert_self (k : Text) (t : AttrTree) (kids : Kids) (h : Kids.lookup k kids = some t) :
+    Kids.upsert k t kids = kids := by
+  induction kids with
+  | nil => simp at h
+  | cons x r ih =>
+    obtain ⟨k', t'⟩ := x
+    simp only [Kids.lookup_cons] at h
+    simp only [Kids.upsert_cons]
+    split
+    · rename_i e; simp only [e, if_true, Option.some.injEq] at h; rw [← e, h]
+    · rename_i e; simp only [e, if_false] at h; rw [ih h]
+
+theorem Kids.erase_upsert (k : Text) (t : AttrTree) (kids : Kids) (h : (Kids.lookup k kids).isSome = true) :
+    Kids.erase k (Kids.upsert k t kids) = Kids.erase k kids := by
+  induction kids with
+  | nil => simp at h
+  | cons x r ih =>
+    obtain ⟨k', t'⟩ := x
+    simp only [Kids.lookup_cons] at h
+    simp only [Kids.upsert_cons, Kids.erase_cons]
+    split
+    · simp
+    · rename_i e; simp only [e, if_false] at h; simp only [Kids.erase_cons, e, if_false, ih h]
+
+theorem lookup_ne_nil (k : Text) (kids : Kids) (h : (Kids.lookup k kids).isSome = true) : kids ≠ [] := by
+  intro e; simp [e] at h
+
+/-- `rm` with pruning = `rm` without, then prune along the parent path -/
+theorem specRemoveK_prune (final : Text) (ks : List Text) : ∀ (kids sub : Kids),
+    treeAt (.node kids) ks = some (.node sub) → (Kids.lookup final sub).isSome = true →
+    specRemoveK true kids (ks ++ [final]) =
+      some (pruneK (graft ks (.node (Kids.erase final sub)) (.node kids)).kids ks) := by
+  induction ks with
+  | nil =>
+    intro kids sub h hl
+    simp only [treeAt_nil, Option.some.injEq, AttrTree.node.injEq] at h; subst h
+    simp [specRemoveK_single, hl, pruneK, AttrTree.kids]
+  | cons k r ih =>
+    intro kids sub h hl
+    simp only [treeAt] at h
+    cases hk : Kids.lookup k kids with
+    | none => simp [hk] at h
+    | some t =>
+      simp only [hk] at h
+      obtain ⟨sub1, rfl⟩ := treeAt_node_of_cons t sub r h
+      have hih := ih sub1 sub h hl
+      have hnode : ∃ G, graft r (.node (Kids.erase final sub)) (.node sub1) = .node G := by
+        have := graft_isNode r (.node (Kids.erase final sub)) (.node sub1) rfl rfl
+        cases hg : graft r (.node (Kids.erase final sub)) (.node sub1) with
+        | node G => exact ⟨G, rfl⟩
+        | leaf v => simp [hg, AttrTree.isNode] at this
+      obtain ⟨G, hG⟩ := hnode
+      simp only [hG, AttrTree.kids] at hih
+      simp only [List.cons_append, specRemoveK_node true kids sub1 k (r ++ [final]) (by simp) hk, hih,
+        Option.map_some, Bool.true_and, graft, hk, Option.getD_some, hG, AttrTree.kids, pruneK,
+        Kids.lookup_upsert_self]
+      split
+      · rw [Kids.erase_upsert k _ kids (by simp [hk])]
+      · rw [Kids.upsert_upsert]
+
+theorem graft_node (r : List Text) (x : Kids) (sub1 : Kids) :
+    ∃ G, graft r (.node x) (.node sub1) = .node G := by
+  have := graft_isNode r (.node x) (.node sub1) rfl rfl
+  cases hg : graft r (.node x) (.node sub1) with
+  | node G => exact ⟨G, rfl⟩
+  | leaf v => simp [hg, AttrTree.isNode] at this
+
+theorem pruneK_snoc_nonempty (k : Text) (ks : List Text) : ∀ (K sub : Kids),
+    treeAt (.node K) (ks ++ [k]) = some (.node sub) → sub ≠ [] → pruneK K (ks ++ [k]) = K := by
+  induction ks with
+  | nil =>
+    intro K sub h hne
+    simp only [List.nil_append, treeAt] at h
+    cases hk : Kids.lookup k K with
+    | none => simp [hk] at h
+    | some t =>
+      simp only [hk, Option.some.injEq] at h; subst h
+      simp only [List.nil_append, pruneK, hk]
+      have : sub.isEmpty = false := by cases sub <;> simp_all
+      simp only [this, Bool.false_eq_true, if_false]
+      exact Kids.upsert_self k _ K hk
+  | cons k0 r ih =>
+    intro K sub h hne
+    simp only [List.cons_append, treeAt] at h
+    cases hk : Kids.lookup k0 K with
+    | none => simp [hk] at h
+    | some t =>
+      simp only [hk] at h
+      obtain ⟨sub0, rfl⟩ := treeAt_node_of_cons t sub (r ++ [k]) h
+      simp only [List.cons_append, pruneK, hk, ih sub0 sub h hne]
+      have : sub0.isEmpty = false := by
+        cases sub0 with
+        | nil => cases r <;> simp [treeAt] at h
+        | cons a b => rfl
+      simp only [this, Bool.false_eq_true, if_false]
+      exact Kids.upsert_self k0 _ K hk
+
+theorem pruneK_snoc_empty (k : Text) (ks : List Text) : ∀ (K par : Kids),
+    treeAt (.node K) ks = some (.node par) → Kids.lookup k par = some (.node []) →
+    pruneK K (ks ++ [k]) = pruneK (graft ks (.node (Kids.erase k par)) (.node K)).kids ks := by
+  induction ks with
+  | nil =>
+    intro K par h hl
+    simp only [treeAt_nil, Option.some.injEq, AttrTree.node.injEq] at h; subst h
+    simp [pruneK, hl, AttrTree.kids]
+  | cons k0 r ih =>
+    intro K par h hl
+    simp only [treeAt] at h
+    cases hk : Kids.lookup k0 K with
+    | none => simp [hk] at h
+    | some t =>
+      simp only [hk] at h
+      obtain ⟨sub0, rfl⟩ := treeAt_node_of_cons t par r h
+      obtain ⟨G, hG⟩ := graft_node r (Kids.erase k par) sub0
+      have hih := ih sub0 par h hl
+      simp only [hG, AttrTree.kids] at hih
+      simp only [List.cons_append, pruneK, hk, hih, graft, Option.getD_some, hG, AttrTree.kids,
+        Kids.lookup_upsert_self]
+      split
+      · rw [Kids.erase_upsert k0 _ K (by simp [hk])]
+      · rw [Kids.upsert_upsert]
+
+theorem isNamed_updSet_shrinks (c : Nat) (g : Node → Node) (hg : Shrinks g) (k : Text) (x : Node) :
+    isNamed k (updSet c g x) = isNamed k x := by
+  cases x with
+  | set s vs o m r =>
+    obtain ⟨vs', o', e, _, _⟩ := hg s vs o m r
+    by_cases h : s = c
+    · subst h; simp [updSet, isNamed, isBind, e]
+    · simp [updSet, h, isNamed, isBind]
+  | bind i n ne val b a => simp [updSet, isNamed, isBind, bindName?]
+  | _ => rfl
+
+theorem findBinding_updSetL (c : Nat) (g : Node → Node) (hg : Shrinks g) (k : Text) (vs : List Node) :
+    findBinding (updSetL c g vs) k = (findBinding vs k).map (updSet c g) := by
+  rw [findBinding_eq, findBinding_eq, updSetL_eq_map, List.find?_map]
+  congr 1
+  have : (isNamed k ∘ updSet c g) = isNamed k := by
+    funext x; exact isNamed_updSet_shrinks c g hg k x
+  rw [this]
+
+theorem vIdsL_sublist (xs ys : List Node) (h : xs.Sublist ys) : (vIdsL xs).Sublist (vIdsL ys) := by
+  induction h with
+  | slnil => exact List.Sublist.refl _
+  | cons y _ ih => simp only [vIdsL_cons]; exact ih.trans (List.sublist_append_right _ _)
+  | cons_cons y _ ih => simp only [vIdsL_cons]; exact (List.Sublist.refl _).append ih
+
+mutual
+  theorem vIds_updSet_shrinks (c : Nat) (g : Node → Node) (hg : Shrinks g) :
+      (x : Node) → (vIds (updSet c g x)).Sublist (vIds x)
+    | .atom _ => List.Sublist.refl _
+    | .ident _ => List.Sublist.refl _
+    | .inherit _ _ => List.Sublist.refl _
+    | .entry _ _ _ _ => List.Sublist.refl _
+    | .bind i n ne val b a => by
+      simp only [updSet, vIds]; exact (vIds_updSet_shrinks c g hg val).cons_cons i
+    | .set s vs o m r => by
+      by_cases h : s = c
+      · obtain ⟨vs', o', e, h1, _⟩ := hg s vs o m r
+        simp only [updSet, h, if_true]
+        rw [← h, e]
+        simp only [vIds]
+        exact (vIdsL_sublist vs' vs h1).cons_cons s
+      · simp only [updSet, h, if_false, vIds]
+        exact (vIdsL_updSetL_shrinks c g hg vs).cons_cons s
+  theorem vIdsL_updSetL_shrinks (c : Nat) (g : Node → Node) (hg : Shrinks g) :
+      (xs : List Node) → (vIdsL (updSetL c g xs)).Sublist (vIdsL xs)
+    | [] => List.Sublist.refl _
+    | x :: xs => by
+      simp only [updSetL, vIdsL_cons]
+      exact (vIds_updSet_shrinks c g hg x).append (vIdsL_updSetL_shrinks c g hg xs)
+end
+
+/-- the chain of (set identity, binding identity, identity of the binding's value set) found in the
+    current tree `T` along the names `ks`, outermost first; the value sets hold only bindings -/
+def Loc : Node → List Text → List (Nat × Nat × Nat) → Prop
+  | _, [], [] => True
+  | T, k :: ks, (c, i, c') :: rest =>
+      T.setSid? = some c ∧ ∃ ne val bf af, findBinding T.setValues k = some (.bind i k ne val bf af) ∧
+        val.setSid? = some c' ∧ val.setValues.all isBind = true ∧ Loc val ks rest
+  | _, _, _ => False
+
+theorem Loc_snoc (k : Text) (x : Nat × Nat × Nat) (ks : List Text) : ∀ (T : Node) (tr : List (Nat × Nat × Nat)),
+    ks.length = tr.length → Loc T (ks ++ [k]) (tr ++ [x]) →
+    Loc T ks tr ∧ ∃ X ne val bf af, subAt T ks = some X ∧ X.setSid? = some x.1 ∧
+      findBinding X.setValues k = some (.bind x.2.1 k ne val bf af) ∧ val.setSid? = some x.2.2 ∧
+      val.setValues.all isBind = true ∧ subAt T (ks ++ [k]) = some val := by
+  induction ks with
+  | nil =>
+    intro T tr hl h
+    cases tr with
+    | cons a b => simp at hl
+    | nil =>
+      obtain ⟨c, i, c'⟩ := x
+      simp only [List.nil_append, Loc] at h
+      obtain ⟨h1, ne, val, bf, af, h2, h3, h4, _⟩ := h
+      exact ⟨trivial, T, ne, val, bf, af, rfl, h1, h2, h3, h4, by simp [subAt, stepInto, h2, bindValue?]⟩
+  | cons k0 r ih =>
+    intro T tr hl h
+    cases tr with
+    | nil => simp at hl
+    | cons a b =>
+      obtain ⟨c0, i0, c1⟩ := a
+      simp only [List.cons_append, Loc] at h
+      obtain ⟨h1, ne, val, bf, af, h2, h3, h4, h5⟩ := h
+      obtain ⟨hl1, X, ne', val', bf', af', g1, g2, g3, g4, g5, g6⟩ := ih val b (by simpa using hl) h5
+      have hst : stepInto T k0 = some val := by simp [stepInto, h2, bindValue?]
+      refine ⟨⟨h1, ne, val, bf, af, h2, h3, h4, hl1⟩, X, ne', val', bf', af', ?_, g2, g3, g4, g5, ?_⟩
+      · simp [subAt, hst, g1]
+      · simp [subAt, hst, g6]
+
+theorem all_isBind_updSet (c : Nat) (g : Node → Node) (hg : Shrinks g) (val : Node)
+    (h : val.setValues.all isBind = true) : (updSet c g val).setValues.all isBind = true := by
+  cases val with
+  | set s vs o m r =>
+    simp only [setValues] at h
+    by_cases hs : s = c
+    · obtain ⟨vs', o', e, h1, _⟩ := hg s vs o m r
+      subst hs
+      simp only [updSet, if_true, e, setValues]
+      rw [List.all_eq_true] at h ⊢
+      exact fun x hx => h x (h1.subset hx)
+    · simp only [updSet, hs, if_false, setValues, updSetL_eq_map, List.all_map]
+      rw [List.all_eq_true] at h ⊢
+      intro x hx
+      have := h x hx
+      cases x <;> simp_all [isBind, updSet]
+  | _ => simp [updSet, setValues]
+
+theorem setSid_updSet_shrinks (c : Nat) (g : Node → Node) (hg : Shrinks g) (val : Node) :
+    (updSet c g val).setSid? = val.setSid? := by
+  cases val with
+  | set s vs o m r =>
+    by_cases hs : s = c
+    · obtain ⟨vs', o', e, _, _⟩ := hg s vs o m r
+      subst hs; simp [updSet, e, setSid?]
+    · simp [updSet, hs, setSid?]
+  | _ => simp [updSet, setSid?]
+
+/-- the chain survives a removal made in the set at its end -/
+theorem Loc_updSet_end (c : Nat) (g : Node → Node) (hg : Shrinks g) (ks : List Text) :
+    ∀ (T X : Node) (tr : List (Nat × Nat × Nat)), (vIds T).Nodup → Loc T ks tr → subAt T ks = some X →
+    X.setSid? = some c → Loc (updSet c g T) ks tr := by
+  induction ks with
+  | nil =>
+    intro T X tr _ h _ _
+    cases tr with
+    | nil => trivial
+    | cons a b => simp [Loc] at h
+  | cons k r ih =>
+    intro T X tr hid h hX hc
+    cases tr with
+    | nil => simp [Loc] at h
+    | cons a b =>
+      obtain ⟨c0, i0, c1⟩ := a
+      simp only [Loc] at h ⊢
+      obtain ⟨h1, ne, val, bf, af, h2, h3, h4, h5⟩ := h
+      have hst : stepInto T k = some val := by simp [stepInto, h2, bindValue?]
+      simp only [subAt, hst] at hX
+      obtain ⟨s, o, m, rr, i, ne', bf', af', pre, post, rfl, hpre⟩ := stepInto_some T k val hst
+      obtain ⟨hval, hc', _⟩ := ids_split s pre post i k ne' val bf' af' o m rr hid
+      obtain ⟨hcs, _, _, _⟩ := hc' c (subAt_sid_mem r val X c hX hc)
+      have hs' : ¬ s = c := fun e => hcs e.symm
+      simp only [setValues] at h2
+      refine ⟨by simpa [updSet, hs', setSid?] using h1, ne, updSet c g val, bf, af, ?_,
+        by rw [setSid_updSet_shrinks c g hg]; exact h3, all_isBind_updSet c g hg val h4,
+        ih val X b hval h5 hX hc⟩
+      simp only [updSet, hs', if_false, setValues, findBinding_updSetL c g hg, h2, Option.map_some]
+
+theorem EditM.ite_apply {α : Type} (c : Prop) [Decidable c] (a b : EditM α) (d : Doc) :
+    (if c then a else b) d = if c then a d else b d := by split <;> rfl
+
+/-- `parent.values.remove(binding)` -/
+def eraseV (bid : Nat) : Node → Node
+  | .set s vs o m r => .set s (vs.eraseP fun n => n.bindId? == some bid) o m r
+  | n => n
+
+theorem removeValueById_eq (sid bid : Nat) (d : Doc) :
+    removeValueById sid bid d = (.ok (), d.updSet sid (eraseV bid)) := rfl
+
+theorem eraseV_isDel (bid : Nat) : IsDelOf bid (eraseV bid) := fun _ _ _ _ _ => ⟨_, rfl⟩
+theorem eraseV_shrinks (bid : Nat) : Shrinks (eraseV bid) :=
+  fun _ _ o _ _ => ⟨_, _, rfl, List.eraseP_sublist, List.Sublist.refl o⟩
+
+@[simp] theorem AttrTree.kids_node (ks : Kids) : (AttrTree.node ks).kids = ks := rfl
+
+/-- the stack entries (stale copies) carry the identities `tr`, innermost first -/
+def StackIds : List (Node × Node) → List (Nat × Nat × Nat) → Prop
+  | [], [] => True
+  | (P, B) :: L, (c, i, c') :: T =>
+      P.setSid? = some c ∧ B.bindId? = some i ∧ (∃ vs o m r, B.bindValue? = some (.set c' vs o m r)) ∧
+      StackIds L T
+  | _, _ => False
+
+theorem lookup_of_findBinding (vs : List Node) (k : Text) (i : Nat) (ne : Bool) (val : Node) (bf af : Payload)
+    (hn : AttrTree.nodupL (denoteL vs) = true) (h : findBinding vs k = some (.bind i k ne val bf af)) :
+    Kids.lookup k (denoteL vs) = some (denote val) := by
+  obtain ⟨i', ne', val', bf', af', pre, post, e, hvs, _⟩ := findBinding_some _ _ _ h
+  injection e with e1 _ e2 e3 e4 e5; subst e1 e2 e3 e4 e5
+  subst hvs
+  obtain ⟨hk, _⟩ := keys_split k pre post i ne val bf af hn
+  simpa using (lookup_split k (denoteL pre) (denoteL post) (denote val) hk).1
+
+theorem isSet_updSet_shrinks (c : Nat) (g : Node → Node) (hg : Shrinks g) (T : Node) (h : T.isSet = true) :
+    (updSet c g T).isSet = true := by
+  obtain ⟨s, vs, o, m, r, rfl⟩ := (isSet_iff T).mp h
+  by_cases hs : s = c
+  · obtain ⟨vs', o', e, _, _⟩ := hg s vs o m r
+    subst hs; simp [updSet, e, isSet]
+  · simp [updSet, hs, isSet]
+
+theorem denoteL_ne_nil (vs : List Node) (h : vs.all isBind = true) (hne : vs ≠ []) : denoteL vs ≠ [] := by
+  cases vs with
+  | nil => exact absurd rfl hne
+  | cons x r =>
+    simp only [List.all_cons, Bool.and_eq_true] at h
+    cases x <;> simp [isBind] at h
+    simp
+
+theorem Doc.findSet_target (d : Doc) (c : Nat) (r : Node) (hs : d.scratch = none)
+    (h : Node.findSet c d.target = some r) : d.findSet c = some r := by
+  simp [Doc.findSet, hs, h]
+
+/-- the prune loop of `_remove_attrpath_value`, read through `denote`: the sets along the chain that
+    are empty go, innermost first, up to the first one that is not empty -/
+theorem prune_loop : ∀ (L : List (Node × Node)) (trR : List (Nat × Nat × Nat)) (ks : List Text) (d : Doc),
+    StackIds L trR → ks.length = trR.length → IdsOK d.target → KeysOK d.target → Coh d.target →
+    d.scratch = none → d.target.isSet = true → Loc d.target ks trR.reverse →
+    ∃ d', pruneParents L d = (.ok (), d') ∧ Frame d d' ∧ d'.next = d.next ∧
+      denote d'.target = .node (pruneK (denote d.target).kids ks) := by
+  intro L
+  induction L with
+  | nil =>
+    intro trR ks d hst hl _ _ _ _ hset _
+    cases trR with
+    | cons a b => simp [StackIds] at hst
+    | nil =>
+      have : ks = [] := by simpa using hl
+      subst this
+      obtain ⟨s, vs, o, m, r, e⟩ := (isSet_iff _).mp hset
+      exact ⟨d, rfl, Frame.refl d, rfl, by rw [e]; rfl⟩
+  | cons PB rest ih =>
+    intro trR ks d hst hl hid hk hcoh hscr hset hloc
+    obtain ⟨P, B⟩ := PB
+    cases trR with
+    | nil => simp [StackIds] at hst
+    | cons x trR' =>
+      obtain ⟨c, i, c'⟩ := x
+      obtain ⟨hP, hB, ⟨bvs, bo, bm, br, hBv⟩, hst'⟩ := hst
+      have hks : ks ≠ [] := by intro e; simp [e] at hl
+      obtain ⟨k, _, hsplit⟩ := getLast_split ks hks
+      generalize ks.dropLast = ks' at hsplit
+      subst hsplit
+      rw [List.reverse_cons] at hloc
+      have hl' : ks'.length = trR'.reverse.length := by simpa using hl
+      obtain ⟨hloc', X, ne, val, bf, af, hX, hXc, hfb, hvc, hvall, hval⟩ :=
+        Loc_snoc k (c, i, c') ks' d.target trR'.reverse hl' hloc
+      simp only at hXc hfb hvc
+      have hfs := Doc.findSet_target d c' val hscr (findSet_of_subAt d.target val c' _ hcoh hval hvc)
+      have htpv := treeAt_denote _ d.target _ hk hval
+      obtain ⟨ts, tvs, to, tm, tr, hT⟩ := (isSet_iff _).mp hset
+      obtain ⟨vvs, vo, vm, vr, rfl⟩ := setSid_some _ _ hvc
+      simp only [setValues] at hvall
+      have hunf : pruneParents ((P, B) :: rest) d =
+          if vvs.isEmpty then (removeValueById c i >>= fun _ => pruneParents rest) d else (.ok (), d) := by
+        simp only [pruneParents, EditM.bind_apply, EditM.get_apply, hBv, hP, hB]
+        rw [EditM.ite_apply]
+        rw [hfs]
+        simp only [setValues, EditM.bind_apply, EditM.pure_apply]
+        rfl
+      rw [hunf]
+      cases hve : vvs.isEmpty with
+      | false =>
+        simp only [Bool.false_eq_true, if_false]
+        refine ⟨d, rfl, Frame.refl d, rfl, ?_⟩
+        have hne : vvs ≠ [] := by intro e; simp [e] at hve
+        rw [hT] at htpv ⊢
+        simp only [denote_set, AttrTree.kids_node] at htpv ⊢
+        rw [pruneK_snoc_nonempty k ks' _ _ htpv (denoteL_ne_nil vvs hvall hne)]
+      | true =>
+        have hvnil : vvs = [] := by simpa using hve
+        subst hvnil
+        simp only [if_true, EditM.bind_apply, removeValueById_eq]
+        obtain ⟨Xvs, Xo, Xm, Xr, rfl⟩ := setSid_some _ _ hXc
+        simp only [setValues] at hfb
+        have hden := denote_del_at d.target hid hk ks' c Xvs Xo Xm Xr hX k _ hfb i rfl _ (eraseV_isDel i)
+        have htpX := treeAt_denote _ d.target _ hk hX
+        have hXn := nodup_treeAt _ _ _ htpX hk
+        simp only [denote_set, AttrTree.nodup_node] at hXn
+        obtain ⟨d', e1, hfr, hnx, hd'⟩ := ih trR' ks' (d.updSet c (eraseV i)) hst' (by simpa using hl')
+          ((hid.sublist (vIds_updSet_shrinks c _ (eraseV_shrinks i) d.target)))
+          (by unfold KeysOK
+              simp only [Doc.updSet_target]
+              rw [hden]
+              exact nodup_graft ks' _ _ _ htpX hk (by simpa using AttrTree.nodupL_erase k _ hXn))
+          (coh_updSet c _ (eraseV_shrinks i) _ hcoh)
+          (by simp [Doc.updSet, hscr])
+          (isSet_updSet_shrinks c _ (eraseV_shrinks i) _ hset)
+          (Loc_updSet_end c _ (eraseV_shrinks i) ks' d.target _ _ hid hloc' hX rfl)
+        refine ⟨d', e1, (Frame.updSet d c _).trans hfr, hnx, ?_⟩
+        rw [hd']
+        simp only [Doc.updSet_target]
+        rw [hden, hT]
+        simp only [denote_set, AttrTree.kids_node]
+        rw [hT] at htpX
+        simp only [denote_set] at htpX
+        rw [pruneK_snoc_empty k ks' _ _ htpX]
+        rw [lookup_of_findBinding Xvs k i ne _ bf af hXn hfb]; rfl
+
 end Nima
